@@ -104,6 +104,17 @@ class Ctx:
                                      detail=ob.detail[:300]))
         return ob
 
+    def guard(self, fn, *a, **k):
+        """Run one section of a check; an engine failure inside it is recorded (CHECKER-ERROR, exit 3 unless a violation is
+        found elsewhere) and the remaining sections still run, so one construct the engine cannot execute does not hide
+        the obligations that can still be decided."""
+        try:
+            return fn(*a, **k)
+        except Exception:
+            tb = traceback.format_exc()
+            self.add(Ob("%s.engine.%s" % (self.prop, getattr(fn, "__name__", "section").lstrip("_")), "guard", "error", "python", 0.0, tb[-1500:]))
+            return None
+
     def ob(self, name, kind, ok, backend="", time_s=0.0, detail="", cex=None, native=None):
         """Record an obligation decided by the caller: ok True/False/None(undecided)."""
         if ok is not None:
@@ -245,6 +256,11 @@ def finish(ctx, level, level_note="", checker_cmd=None):
     except Exception:
         used = []
     assumptions = list(GLOBAL_ASSUMPTIONS) + ctx.assumptions + ["dependency contract exercised on this run: " + u for u in used]
+    try:
+        from . import zdomain as _zd
+        second = dict(_zd.SECOND, time_s=round(_zd.SECOND["time_s"], 2))
+    except Exception:
+        second = None
     ev = dict(
         property_id=ctx.prop, tier=ctx.tier, seed=ctx.seed, level=level,
         coverage=dict(
@@ -256,6 +272,7 @@ def finish(ctx, level, level_note="", checker_cmd=None):
             functions_under_contract=ctx.functions,
             backends=backends,
             solver_time_s=round(sum(o.time_s for o in ctx.obs), 3),
+            second_solver_cvc5=second,
             paths=ctx.paths,
             crosscheck_points=ctx.crosscheck_points,
             vacuity_witnesses=ctx.vacuity,
@@ -289,6 +306,8 @@ def run_property(prop, tier="quick", seed=None):
     try:
         from . import field as _field
         _field.N_POINTS = 3 if tier == "quick" else 12      # numeric refuter points evaluated before every normal-form proof
+        from . import zdomain as _zd
+        _zd.SECOND["enabled"] = (tier != "quick") and os.path.exists(_zd.CVC5)   # thorough: every z3 'unsat' re-run through cvc5
     except Exception:
         pass
     try:
